@@ -58,7 +58,8 @@ func next(a string) string {
 func third(a string) string { return next(next(a)) }
 
 var classLabel = [2]string{"c1", "c2"}
-var classID = [2]string{"class1", "class2"}
+// on-chain ids where one is a proper prefix of the other (key layouts that forget a terminator mix them up)
+var classID = [2]string{"class1", "class11"}
 
 // token slots: (class index, label, on-chain id)
 type slotDef struct {
@@ -67,7 +68,7 @@ type slotDef struct {
 	id    string
 }
 
-var slots = [3]slotDef{{0, "n1", "tok1"}, {0, "n2", "tok2"}, {1, "n1", "tok1"}}
+var slots = [3]slotDef{{0, "n1", "tok1"}, {0, "n2", "tok11"}, {1, "n1", "tok1"}}
 
 type meta struct{ Name, URI, Hash, Data string }
 
